@@ -513,6 +513,8 @@ def monitor(sc, res):
                 else:
                     viol.append(('reconnect-decision', f'reconnect {"happened" if happened else "did not happen"} after loss reason '
                                  f'{prev.get("loss_reason")} with auto={st["reconnect"]}', {'step': i}))
+            if happened and s['conn'] == 'Connected' and st['reconnect'] and 'OLoginSent' not in outs:
+                viol.append(('reconnect-without-login', 'the watchdog re-connected to the server but no new login was sent', {'step': i}))
         if kind == 'login' and step[1] == 'ok' and prev['session'] and 'OSessionInit' in outs:
             viol.append((K_TRK if any(p['step'][0] == 'lost_tracking' for p in recs[:i]) else 'session-replaced-without-destroy',
                          'a new session was initialised while the previous one was never destroyed', {'step': i}))
@@ -528,11 +530,14 @@ def monitor(sc, res):
                 nxt['loss_reason'] = step[1]
                 nxt['after_tracking'] = True
         elif kind == 'logincut':
-            nxt['loss_reason'] = 'WRITE_ERROR'
+            if prev['conn'] == 'Connected':
+                nxt['loss_reason'] = 'WRITE_ERROR'
         elif kind == 'login' and step[1] == 'eof':
-            nxt['loss_reason'] = 'EOF'
+            if prev['conn'] == 'Connected':
+                nxt['loss_reason'] = 'EOF'
         elif kind == 'start' and not step[1]:
-            nxt['loss_reason'] = 'CONNECT_FAILED'
+            if prev['conn'] == 'Uninit':
+                nxt['loss_reason'] = 'CONNECT_FAILED'
         elif s['conn'] == 'Connected':
             nxt['loss_reason'] = None
         prev = nxt
@@ -561,11 +566,16 @@ def monitor(sc, res):
             conn_before = recs[stop_idx - 1]['state'] if stop_idx else {'conn': 'Uninit', 'watchdog': False}
             if 'lost_tracking' in kinds:
                 key, what = K_TRK, 'after a loss noticed inside a tracking task stop() does not shut the client down cleanly'
-            elif conn_before['conn'] == 'Closed' and conn_before['watchdog'] and not si['exception'] and not si['listeners']:
+            elif (conn_before['conn'] == 'Closed' and conn_before['watchdog'] and not si['exception'] and not si['listeners'] and
+                  ('server-connection-watchdog-task' in si['tasks'] or si['opened_later'])):
                 key, what = K_WD, ('stop() while the server connection is CLOSED after an unrequested loss: disconnect() returns early, the '
                                    'reconnect watchdog is never cancelled and reconnects after stop() returned')
                 if 'parents' in kinds and not wd_only:
                     what += ' (potential-parent tasks pending as well: F20)'
+            elif ('parents' in kinds and dist_only and not any(t.startswith('potential-parent-') for t in si['tasks']) and
+                  not si['exception'] and not si['open'] and not si['listeners'] and not si['opened_later']):
+                key, what = 'cancelled-connect-race-leaves-children', ('the potential-parent task was cancelled by stop(), but the direct/indirect '
+                                                                       'connect tasks it had started are still pending when stop() returns')
             elif 'parents' in kinds and dist_only and not si['exception'] and not si['open'] and not si['listeners'] and not si['opened_later']:
                 key, what = K_F20, ('DistributedNetwork is not in SoulSeekClient.services: stop() does not cancel the potential-parent '
                                     'connect tasks, they are still pending when stop() returns')
